@@ -1449,6 +1449,7 @@ inline void url_aggregator::consume_prepared_path(std::string_view input) {
   }
   if (trivial_path && is_at_path()) {
     ada_log("parse_path trivial");
+    ADA_VERIF_COUNT(C_PATH_TRIVIAL);
     buffer += '/';
     buffer += input;
     return;
@@ -1464,6 +1465,7 @@ inline void url_aggregator::consume_prepared_path(std::string_view input) {
       (type != ada::scheme::type::FILE);
   if (fast_path) {
     ada_log("parse_prepared_path fast");
+    ADA_VERIF_COUNT(C_PATH_FAST);
     // Here we don't need to worry about \ or percent encoding.
     // We also do not have a file protocol. We might have dots, however,
     // but dots must as appear as '.', and they cannot be encoded because
@@ -1517,6 +1519,7 @@ inline void url_aggregator::consume_prepared_path(std::string_view input) {
     } while (true);
   } else {
     ada_log("parse_path slow");
+    ADA_VERIF_COUNT(C_PATH_SLOW);
     // we have reached the general case
     bool needs_percent_encoding = (accumulator & 1);
     std::string path_buffer_tmp;
